@@ -3,6 +3,7 @@ package main
 
 import (
 	"fmt"
+	"math"
 	"sort"
 	"strings"
 
@@ -74,6 +75,9 @@ type state struct {
 func (s *state) token() int { s.next++; return s.next }
 
 type pent struct{ p, v int }
+
+// priority alphabet of the priority queue (index = last digit of the token)
+var priOf = []int{0, 1, 2, math.MinInt, math.MaxInt}
 
 func (e pent) GetPriority() int { return e.p }
 
@@ -226,18 +230,18 @@ func ops(kind string, has *adapter) []seq.Op[*state] {
 		}})
 	}
 	if kind == "priq" {
-		for _, p := range []int{0, 1, 2} {
-			p := p
+		for pi, p := range []int{0, 1, 2, math.MinInt, math.MaxInt} {
+			pi, p := pi, p
 			o = append(o, seq.Op[*state]{Name: fmt.Sprintf("Push(pri=%d)", p), Step: func(s *state) (string, string) {
 				v := s.token()
-				got := s.a.add(v*10 + p)
+				got := s.a.add(v*10 + pi)
 				m := s.m
 				want := "ok"
 				if len(m.pri) >= m.capReq {
 					want = "full"
 				} else {
 					m.seqNo++
-					m.pri = append(m.pri, pitem{v*10 + p, p, m.seqNo})
+					m.pri = append(m.pri, pitem{v*10 + pi, p, m.seqNo})
 				}
 				return cmp("Push", got, want)
 			}})
@@ -461,7 +465,7 @@ func makers() []maker {
 		out = append(out, maker{fmt.Sprintf("priq.PriQueue/cap=%d", c), "priq", func() *state {
 			x := priq.NewPriQueue(c)
 			return &state{m: &model{kind: "priq", capReq: c}, a: &adapter{
-				add: func(v int) string { return norm(x.Push(pent{v % 10, v}), nil, priq.ErrQueueIsFull, nil) },
+				add: func(v int) string { return norm(x.Push(pent{priOf[v%10], v}), nil, priq.ErrQueueIsFull, nil) },
 				pop: func() (int, string) {
 					e := x.Pop()
 					if e == nil {
